@@ -70,6 +70,7 @@ def _pcase(draw):
     c['part'] = 'pipeline'
     c['refit'] = False
     c['condensates'] = draw(st.booleans())
+    c['broken_first'] = draw(S.pick([False, True, False, True]))
     return c
 
 
@@ -134,7 +135,26 @@ def check_pipeline(case, out):
         out.cls('pipeline-weights:' + case['wkind'])
         grid = np.asarray(Rs[0].obs.wavenumberGrid)
 
+        broken_first = bool(case.get('broken_first'))
+        if broken_first:
+            out.cls('post-processing-broke-off-first')
+
         def work(R):
+            if broken_first:
+                # a first post-processing pass that breaks off at its second sample (an unphysical posterior sample: the
+                # forward model raises, the caller catches it), then the pass proper on the same model and optimizer
+                # (the broken pass is made on the model directly, with a sample source that fails after its first sample: no
+                # exchange between ranks happens before the failure, so every rank breaks off alike)
+                from taurex.exceptions import InvalidModelException
+
+                def failing_samples():
+                    yield 1.0
+                    raise InvalidModelException('unphysical sample')
+                try:
+                    with np.errstate(all='ignore'):
+                        R.m.compute_error(failing_samples, wngrid=grid, binner=getattr(R.opt, '_binner', None))
+                except InvalidModelException:
+                    pass
             with np.errstate(all='ignore'):
                 prof, spec = R.opt.generate_profiles(0, grid)
                 der = R.opt.compute_derived_trace(0)
